@@ -56,7 +56,10 @@ def addAmt (a b : Nat) : Except Err Nat := if a + b > maxAmount then .error .oth
 structure Env where
   coins : List Coin
   k : Nat := kStd
-  deriving Repr, Inhabited
+  /-- existsMsgTx succeeds for the coin (its transaction is still where the wallet recorded it on the
+      node's chain); false only while a reorganisation has not been delivered to the wallet yet -/
+  resolvable : Coin → Bool := fun _ => true
+  deriving Inhabited
 
 structure Found where
   sel : List Coin
@@ -104,6 +107,8 @@ def outerLoop (env : Env) (outSum nOut payloadLen : Nat) (chgAddr : String) :
   | 0, _ => .error .fuel
   | fuel + 1, target => do
     let (sel, chg, txOutLen) ← innerLoop env target outSum nOut chgAddr 2 0
+    -- estimateSignedSize looks every selected coin up again: "estimate signedSize failed" → ErrInvalidParameter
+    if sel.any (fun c => !env.resolvable c) then throw .param
     let size := estSize sel.length txOutLen + payloadLen
     let required := relayFee size
     if target ≥ required then pure ⟨sel, chg, target⟩
